@@ -249,6 +249,33 @@ func (c *c19) RunCase(w *core.Worker, idx int, seed uint64, res *core.CaseResult
 		time.Sleep(time.Millisecond)
 		runtime.Gosched()
 	}
+	// the same datastore serves the next client: a second, undisturbed stream must come to its end as well (what the
+	// first call left behind - a lock, a full channel - would show here)
+	if sc.kind != "store-deleted" {
+		srv := server.NewVerif(ctx, &config.Config{}, c.env.Schema, c.env.Cache, map[string]*datastore.Datastore{ds.Name: ds.Datastore})
+		st2 := fixture.NewFakeStream[*sdcpb.GetDataResponse](ctx)
+		done2 := make(chan error, 1)
+		go func() {
+			defer func() {
+				if r := recover(); r != nil {
+					done2 <- fmt.Errorf("PANIC: %v", r)
+				}
+			}()
+			done2 <- srv.GetData(&sdcpb.GetDataRequest{Name: ds.Name, Path: []*sdcpb.Path{model.Parse("/if").ToPb()}, DataType: sdcpb.DataType_CONFIG,
+				Encoding: sdcpb.Encoding_STRING, Datastore: &sdcpb.DataStore{Type: sdcpb.Type_MAIN}}, st2)
+		}()
+		select {
+		case err2 := <-done2:
+			res.Count("follow_up_streams", 1)
+			if err2 != nil {
+				res.Violate("C19/next-stream-fails", "%s: a plain GetData on the same datastore afterwards fails: %v", desc, err2)
+			}
+		case <-time.After(10 * time.Second):
+			c.hung(res, "C19/next-stream-does-not-return", desc, base)
+			st2.Cancel()
+		}
+		st2.Cancel()
+	}
 }
 
 // hung applies the two-dump rule: a violation only if the same goroutines are blocked in both dumps.
